@@ -816,7 +816,13 @@ func (gg *gasGen) depositAmount(bal *big.Int) *big.Int {
 func (gg *gasGen) depositData() gasData {
 	r := gg.r
 	g := gg.g
-	switch r.Intn(20) {
+	switch r.Intn(24) {
+	case 20, 21, 22:
+		vs := markerVariants(gasDataMarkers[r.Intn(len(gasDataMarkers))])
+		return gasData{Kind: "bytes", B: vs[r.Intn(len(vs))]}
+	case 23:
+		// integers whose byte form is the marker followed by one more byte
+		return gasData{Kind: "int", I: 0x0b57 + int64(1+r.Intn(0x7f))<<16}
 	case 0, 1, 2, 3:
 		return gasData{Kind: "null"}
 	case 4, 5:
@@ -1142,6 +1148,47 @@ func gasRandomCfg(r *rand.Rand, thorough bool) gasEnvCfg {
 	return c
 }
 
+// gasDataMarkers: every constant the contracts of this family compare the
+// `data` of a payment against (neofs: ignoreDepositNotification).
+var gasDataMarkers = [][]byte{gasMarker}
+
+// markerVariants returns, for a marker m, the byte strings around it that a
+// comparison other than exact equality would confuse with it:
+// (a) m itself, (b) m followed by extra bytes, for every interesting total
+// length (m+1, m+2, 19, 20 = a legal receiver address, 21, 33, 35, 64),
+// (c) every proper prefix of m (the empty one included), (d) m with one byte
+// altered (each position, alone and padded to a 20-byte address), plus m
+// preceded by a byte and m as the tail of a 20-byte address.
+func markerVariants(m []byte) [][]byte {
+	var out [][]byte
+	pad := func(b []byte, n int) []byte {
+		x := append([]byte{}, b...)
+		for i := len(x); i < n; i++ {
+			x = append(x, byte(0xa0+i))
+		}
+		return x
+	}
+	out = append(out, append([]byte{}, m...))
+	for _, n := range []int{len(m) + 1, len(m) + 2, 19, 20, 21, 33, 35, 64} {
+		out = append(out, pad(m, n))
+	}
+	out = append(out, append(append([]byte{}, m...), 0)) // marker + a zero byte
+	for i := 0; i < len(m); i++ {
+		out = append(out, append([]byte{}, m[:i]...))
+	}
+	for i := range m {
+		for _, d := range []byte{1, 0x80} {
+			x := append([]byte{}, m...)
+			x[i] ^= d
+			out = append(out, x, pad(x, 20))
+		}
+	}
+	out = append(out, append([]byte{0}, m...))
+	tail := pad(nil, 20-len(m))
+	out = append(out, append(tail, m...))
+	return out
+}
+
 // payFroms: what a caller of onNEP17Payment(from, ..) of receiver r may claim
 // as the sender: an ordinary account, Null (nil), r's own hash, the GAS and
 // NEO hashes, another system contract, the Alphabet (committee) account.
@@ -1224,6 +1271,29 @@ func gasCorpus(thorough bool) []gasCorpusEntry {
 					ops = append(ops, gasOp{Kind: "verify", To: t, Signers: []string{s}})
 				}
 			}
+			return ops
+		}})
+	// data around every marker constant: only the exact marker is a fee payment
+	// (no Deposit); 20 bytes are a receiver whatever they start with; any other
+	// length is refused; callers other than GAS pass with the exact marker only
+	out = append(out, gasCorpusEntry{"marker-variants", gasEnvCfg{NC: 1, WFee: i64p(7), CFee: i64p(11), IR: 1, AlphaIdx: []int64{0}},
+		func(g *gasEnv) []gasOp {
+			N := g.neofs.BytesBE()
+			var ops []gasOp
+			for _, m := range gasDataMarkers {
+				for _, v := range markerVariants(m) {
+					d := by(v)
+					ops = append(ops,
+						gasOp{Kind: "gasTransfer", From: u(g, 0), To: N, Amount: bn(5), Data: d, Signers: []string{"U0"}},
+						gasOp{Kind: "tokenPay", From: u(g, 0), To: N, Amount: bn(5), Data: d, Signers: []string{"U0"}},
+						gasOp{Kind: "directPay", From: u(g, 0), To: N, Amount: bn(5), Data: d, Signers: []string{"U0"}})
+				}
+			}
+			for _, i := range []int64{0x0b57, 0x010b57, 0x7f0b57, 0x0b, 0x57, 0x0b56} {
+				ops = append(ops, gasOp{Kind: "gasTransfer", From: u(g, 0), To: N, Amount: bn(5), Data: gasData{Kind: "int", I: i}, Signers: []string{"U0"}})
+			}
+			// the contract's own fee payment still goes through, unreported
+			ops = append(ops, gasOp{Kind: "candAdd", Key: g.users[1].PublicKey().Bytes(), Signers: []string{"U1"}})
 			return ops
 		}})
 	// accept-only is a function of the CALLER alone (NeoFS: plus the marker):
@@ -1574,6 +1644,22 @@ func (m *gasMon) step(op gasOp, o gasObs) {
 			break
 		}
 		acc, dep, rcv := m.accepts(op.To, "gas", op.From, op.Amount, op.Data)
+		if bytes.Equal(op.To, N) {
+			nd := 0
+			for _, e := range o.evs {
+				if e.kind == 1 {
+					nd++
+				}
+			}
+			switch {
+			case o.halt && !acc:
+				m.violate(fmt.Sprintf("%s: NeoFS accepted GAS it must refuse (not the exact marker, and not 0 < amount <= 9000 GAS with data of 0 or 20 bytes): %s", what, op.String()))
+			case o.halt && dep && nd != 1:
+				m.violate(fmt.Sprintf("%s: NeoFS received GAS without reporting it by exactly one Deposit (%d Deposit notifications): %s", what, nd, op.String()))
+			case o.halt && !dep && nd != 0:
+				m.violate(fmt.Sprintf("%s: Deposit reported for a payment carrying the exact marker: %s", what, op.String()))
+			}
+		}
 		mustHalt(acc, "acceptance rule of the receiver")
 		if o.halt {
 			if o.ret != VBool(true) {
